@@ -136,6 +136,11 @@ NoWhitelistPanic == phase = "decide" => ~(Blacklisted(FingerprintOf(fs).fp) /\ W
 NoSemiIfPanic == (phase = "fold" /\ fs.ret < 0 /\ fs.fpos - fs.left >= 2) =>
                     ~SemiIfPanics(V(fs, fs.left), V(fs, fs.left + 1))
 
+\* refinement: every concrete fold iteration is a step of the index automaton FoldIdx, whose
+\* invariants hold for token streams of any length
+FI == INSTANCE FoldIdx WITH f <- [fpos |-> fs.fpos, left |-> fs.left, more |-> fs.more, ret |-> fs.ret]
+RefinesFoldIdx == [][(iters' = iters + 1) => FI!Next]_vars
+
 \* C08 (model level)
 FpShape ==
   \A i \in DOMAIN hist : Level # "lex" =>
